@@ -81,7 +81,7 @@ func clusterState(w *World) {
 	sec("jwk", secrets.SecretTypeJWK, map[string][]byte{"jwk": []byte(`{"keys":[]}`)})
 	sec("htpasswd", secrets.SecretTypeHtpasswd, map[string][]byte{"htpasswd": []byte("u:$apr1$x$y\n")})
 	sec("ca", secrets.SecretTypeCA, map[string][]byte{"ca.crt": validCert})
-	sec("apikey", secrets.SecretTypeAPIKey, map[string][]byte{"client1": []byte("key1"), "client-2": []byte("key2")})
+	sec("apikey", secrets.SecretTypeAPIKey, map[string][]byte{"client1": []byte("key1")})
 	sec("oidc", secrets.SecretTypeOIDC, map[string][]byte{"client-secret": []byte("secret")})
 	w.GC = &conf_v1.GlobalConfiguration{ObjectMeta: meta_v1.ObjectMeta{Name: "gc", Namespace: "nginx-ingress"},
 		Spec: conf_v1.GlobalConfigurationSpec{Listeners: []conf_v1.Listener{
@@ -220,22 +220,44 @@ func vsWorld(plus bool) *World {
 	if plus {
 		authPol = "jwt"
 	}
+	redirectAction := func() *conf_v1.Action {
+		return &conf_v1.Action{Redirect: &conf_v1.ActionRedirect{URL: "${scheme}://${host}/new${request_uri}", Code: 302}}
+	}
+	// the four kinds of action, over upstream up
+	actions := func(up string) []*conf_v1.Action {
+		return []*conf_v1.Action{{Pass: up}, proxyAction(up), redirectAction(), returnAction()}
+	}
+	splitsOf := func(up string) []conf_v1.Split {
+		var out []conf_v1.Split
+		for k, a := range actions(up) {
+			out = append(out, conf_v1.Split{Weight: []int{40, 30, 20, 10}[k], Action: a})
+		}
+		return out
+	}
+	matchesOf := func(up string) []conf_v1.Match {
+		as := actions(up)
+		return []conf_v1.Match{
+			{Conditions: conds, Action: as[1]},
+			{Conditions: []conf_v1.Condition{{Header: "x-beta", Value: "\\\"yes\\\""}}, Action: as[2]},
+			{Conditions: []conf_v1.Condition{{Argument: "ret", Value: "1"}}, Action: as[3]},
+			{Conditions: []conf_v1.Condition{{Cookie: "ab", Value: "b"}}, Splits: splitsOf(up)},
+		}
+	}
 	vs.Spec.Routes = []conf_v1.Route{
 		{Path: "/tea", Policies: pref("rl", "emtls"), Action: &conf_v1.Action{Pass: "tea"}, ErrorPages: errPages},
 		{Path: "/coffee", Policies: pref(authPol), Action: proxyAction("coffee")},
-		{Path: "/redirect", Policies: pref("acl-deny"), Action: &conf_v1.Action{Redirect: &conf_v1.ActionRedirect{URL: "${scheme}://${host}/new${request_uri}", Code: 302}}},
+		{Path: "/redirect", Policies: pref("acl-deny"), Action: redirectAction()},
 		{Path: "/return", Policies: pref("apikey"), Action: returnAction()},
-		{Path: "/splits", Splits: []conf_v1.Split{{Weight: 80, Action: &conf_v1.Action{Pass: "tea"}}, {Weight: 15, Action: proxyAction("coffee")}, {Weight: 5, Action: returnAction()}}},
-		{Path: "/matches", Matches: []conf_v1.Match{
-			{Conditions: conds, Action: &conf_v1.Action{Pass: "coffee"}},
-			{Conditions: []conf_v1.Condition{{Header: "x-beta", Value: "\\\"yes\\\""}}, Splits: []conf_v1.Split{{Weight: 50, Action: &conf_v1.Action{Pass: "tea"}}, {Weight: 50, Action: &conf_v1.Action{Pass: "coffee"}}}},
-		}, Action: &conf_v1.Action{Pass: "tea"}, ErrorPages: errPages[:1]},
+		{Path: "/splits", Splits: splitsOf("tea")},
+		{Path: "/matches", Matches: matchesOf("coffee"), Action: &conf_v1.Action{Pass: "tea"}, ErrorPages: errPages[:1]},
+		{Path: "/matches-splits", Matches: matchesOf("tea")[:1], Splits: splitsOf("coffee")[:2]},
 		{Path: "~ ^/regex/(.*)$", Action: &conf_v1.Action{Proxy: &conf_v1.ActionProxy{Upstream: "tea", RewritePath: "/$1"}}},
 		{Path: "~* ^/iregex", Action: &conf_v1.Action{Pass: "tea"}},
 		{Path: "=/exact", Action: &conf_v1.Action{Pass: "cip"}},
 		{Path: "/grpc", Action: &conf_v1.Action{Pass: "grpc-up"}},
 		{Path: "/vsr", Route: ns + "/vsr1"},
 	}
+	vs.Spec.Routes[6].Splits[0].Weight, vs.Spec.Routes[6].Splits[1].Weight = 60, 40
 	if plus {
 		vs.Spec.Routes = append(vs.Spec.Routes,
 			conf_v1.Route{Path: "/jwks", Policies: pref("jwks", "rl-jwt", "rl-jwt-default"), Action: &conf_v1.Action{Pass: "tea"}},
@@ -244,13 +266,25 @@ func vsWorld(plus bool) *World {
 	}
 	w.Objs = append(w.Objs, Obj{Kind: "vs", Name: "cafe", Val: vs})
 	vsr := &conf_v1.VirtualServerRoute{ObjectMeta: meta("vsr1")}
+	vups := richUpstreams(plus)
+	for k := range vups {
+		vups[k].Name = "v" + vups[k].Name
+		if vups[k].Backup != "" { // one backup service per VirtualServer is enough
+			vups[k].Backup, vups[k].BackupPort = "", nil
+		}
+	}
 	vsr.Spec = conf_v1.VirtualServerRouteSpec{IngressClass: "nginx", Host: "cafe.example.com",
-		Upstreams: []conf_v1.Upstream{{Name: "vsr-up", Service: "vsr-svc", Port: 80, LBMethod: "ip_hash", ProxyConnectTimeout: "7s"}},
+		Upstreams: append(vups, conf_v1.Upstream{Name: "vsr-up", Service: "vsr-svc", Port: 80, LBMethod: "ip_hash", ProxyConnectTimeout: "7s"}),
 		Subroutes: []conf_v1.Route{
-			{Path: "/vsr/a", Policies: pref("rl"), Action: &conf_v1.Action{Pass: "vsr-up"}, ErrorPages: errPages[1:]},
-			{Path: "/vsr/b", Action: &conf_v1.Action{Return: &conf_v1.ActionReturn{Body: "vsr body"}}},
-			{Path: "/vsr/c", Matches: []conf_v1.Match{{Conditions: conds[:1], Action: proxyAction("vsr-up")}}, Action: &conf_v1.Action{Pass: "vsr-up"}},
+			{Path: "/vsr/a", Policies: pref("rl"), Action: &conf_v1.Action{Pass: "vsr-up"}, ErrorPages: errPages},
+			{Path: "/vsr/b", Action: proxyAction("vtea")},
+			{Path: "/vsr/c", Action: redirectAction()},
+			{Path: "/vsr/d", Action: returnAction()},
+			{Path: "/vsr/splits", Splits: splitsOf("vcoffee")},
+			{Path: "/vsr/matches", Matches: matchesOf("vsr-up"), Action: &conf_v1.Action{Pass: "vsr-up"}},
+			{Path: "/vsr/ms", Matches: matchesOf("vtea")[3:], Splits: splitsOf("vsr-up")[:2]},
 		}}
+	vsr.Spec.Subroutes[6].Splits[0].Weight, vsr.Spec.Subroutes[6].Splits[1].Weight = 50, 50
 	w.Objs = append(w.Objs, Obj{Kind: "vsr", Name: "vsr1", Val: vsr})
 	return w
 }
